@@ -101,6 +101,7 @@ func CmdCheck(args []string) int {
 	type failure struct {
 		name, status, desc, pos, output, model, query string
 		hasModel                                      bool
+		obl                                           *Obligation
 	}
 	var failures []failure
 	var allObls []*Obligation
@@ -203,7 +204,7 @@ func CmdCheck(args []string) int {
 			}
 			continue
 		}
-		f := failure{name: o.Name, status: o.Status, desc: o.Desc, pos: o.Pos, output: o.Output, model: o.Model, hasModel: o.Model != ""}
+		f := failure{name: o.Name, status: o.Status, desc: o.Desc, pos: o.Pos, output: o.Output, model: o.Model, hasModel: o.Model != "", obl: o}
 		f.query = o.unit.Query(o)
 		failures = append(failures, f)
 	}
@@ -239,6 +240,12 @@ func CmdCheck(args []string) int {
 		isKnown := false
 		for _, k := range known.Findings {
 			if k.Property == claim.Property && k.Status == "open" && k.Obligation == f.name {
+				// the listed witness must still fail on the real code (when a replay harness exists)
+				if f.obl != nil && loadReplaySpec(*verif, f.obl.Func) != nil && f.obl.Model != "" {
+					if ok, _ := Replay(*verif, *repo, f.obl); !ok {
+						continue
+					}
+				}
 				isKnown = true
 				lines = append(lines, fmt.Sprintf("KNOWN-FINDING: property=%s %s (%s)", claim.Property, k.What, f.name))
 				knownPrinted = append(knownPrinted, f.name)
@@ -251,13 +258,16 @@ func CmdCheck(args []string) int {
 		path := filepath.Join(replayDir, sanitize(claim.Property+"_"+f.name)+".json")
 		rp := map[string]any{"property": claim.Property, "obligation": f.name, "status": f.status, "what": f.desc, "at": f.pos, "solver_output": f.output}
 		suffix := " no-failing-input-found"
-		if f.hasModel && f.model != "" {
-			rp["model"] = f.model
-			if ok, out := tryReplay(*verif, *repo, claim.Property, f.name, f.model); ok {
-				rp["replay"] = out
+		if f.hasModel && f.model != "" && f.obl != nil {
+			m := f.model
+			if len(m) > 3000 {
+				m = m[:3000] + "..."
+			}
+			rp["model"] = m
+			ok, rep := Replay(*verif, *repo, f.obl)
+			rp["replay"] = rep
+			if ok {
 				suffix = ""
-			} else if out != "" {
-				rp["replay_attempt"] = out
 			}
 		} else if strings.HasPrefix(f.name, "standin:") {
 			suffix = ""
@@ -385,7 +395,4 @@ func runStandIn(si StandIn, repo, verif string, seed int) (map[string]any, bool)
 	return rep, err == nil
 }
 
-// tryReplay runs a replay harness for the obligation's function if one exists.
-func tryReplay(verif, repo, prop, obligation, model string) (bool, string) {
-	return false, ""
-}
+
